@@ -135,6 +135,22 @@ Fixpoint cut_aux (sep : N) (l cur : bytes) : bytes * option bytes :=
   end.
 Definition cut (sep : N) (l : bytes) : bytes * option bytes := cut_aux sep l [].
 
+(* the same functions with a linear-time reversal (List.rev is quadratic): used for parsing whole case and
+   result lines, which can be hundreds of kilobytes; split_on / cut above stay as they are (proofs) *)
+Fixpoint split_aux_fast (sep : N) (l cur : bytes) : list bytes :=
+  match l with
+  | [] => [rev_append cur []]
+  | b :: l' => if b =? sep then rev_append cur [] :: split_aux_fast sep l' [] else split_aux_fast sep l' (b :: cur)
+  end.
+Definition split_on_fast (sep : N) (l : bytes) : list bytes := split_aux_fast sep l [].
+
+Fixpoint cut_aux_fast (sep : N) (l cur : bytes) : bytes * option bytes :=
+  match l with
+  | [] => (rev_append cur [], None)
+  | b :: l' => if b =? sep then (rev_append cur [], Some l') else cut_aux_fast sep l' (b :: cur)
+  end.
+Definition cut_fast (sep : N) (l : bytes) : bytes * option bytes := cut_aux_fast sep l [].
+
 Fixpoint starts_with (p l : bytes) : bool :=
   match p, l with
   | [], _ => true
